@@ -238,6 +238,15 @@ def program_script(prog, rng):
         cmds.append('print A %s %s loc=0 base=10' % (root, route))
         if route == 'expr':
             cmds.append('pos A %s %d base=%d' % (root, rng.randint(0, 10 ** 6), base))
+        # implementation-only variants: a start indentation of the client's own (also negative), the same printer used again after
+        # the print (completed or refused midway)
+        if rng.random() < 0.5:
+            cmds.append('print A %s %s loc=%d base=%d ind=%d' % (root, route, rng.randint(0, 1), base, rng.choice([-9, -3, -1, 3, 6, 12])))
+        if rng.random() < 0.5:
+            cmds.append('print A %s again:%s loc=0 base=%d ind=%d' % (root, route, base, rng.choice([0, 0, 3, -3])))
+    # the whole unit through its own inserter, with the stream in another base / fill
+    cmds.append('dump A gs')
+    cmds.append('print A gs unit loc=%d base=%d fill=%d' % (rng.randint(0, 1), rng.choice([10, 16, 8]), rng.choice([32, 42, 48])))
     return cmds + ['del A']
 
 
